@@ -273,3 +273,16 @@ func verifServerReplyToRequest(b []byte, c2s []byte, req *Packet, cookie []byte,
 //@ func verifServerReplyToRequest
 //@   noframe
 //@   requires req != nil && len(cookie) == 124 && len(s2c) == 32 && len(b) <= 2048
+
+// The client's next request after a key exchange: the cookies are whatever the key-exchange server sent (the record
+// format allows up to 65535 bytes each); building the request must not crash the client.
+func verifClientRequestAfterExchange(data ntske.Data) []byte {
+	buf := make([]byte, ntpPacketLen)
+	pkt, _ := NewRequestPacket(data)
+	EncodePacket(&buf, &pkt)
+	return buf
+}
+
+//@ func verifClientRequestAfterExchange
+//@   noframe
+//@   requires len(data.Cookie) >= 1 && len(data.Cookie) <= 8 && len(data.C2sKey) == 32 && len(data.Cookie[0]) <= 65535
